@@ -1,16 +1,17 @@
 import os, vf
 from pbase import Base
-import gen_log
+import gen_log, gen_rs2v
 
 
 class Property(Base):
     prop = "C05"
     comp = "c05"
     coq_targets = ["theories/Properties/C05.vo"]
-    theorems = ["C05_read", "C05_plan", "C05_plan_tail", "C05_capacity_positive"]
+    theorems = ["C05_read", "C05_plan", "C05_plan_tail", "C05_capacity_positive", "C05_code_append", "C05_code_read_ptrs", "C05_code_widths"]
     trusted_base = Base.COMMON_TB + [
         "translator T6 (translators/gen_log.py): CAPACITY and the return-area size are read from provider/src/log.rs",
-        "hand-transcribed model coq/theories/Log/Ring.v of Logs::append, Logs::read_ptrs and the glue's two copies; tied to the code by the correspondence only",
+        "translator T8 (translators/rs2v): Logs::append and Logs::read_ptrs of provider/src/log.rs are REGENERATED into Gen/LogFnGen.v on every run; C05_code_append / C05_code_read_ptrs prove the model's functions equal to them in every reachable state (trusted: the translation scheme of rs2v, Base/RsPrelude.v; pointers into the ring modelled as offsets)",
+        "hand-written model coq/theories/Log/Ring.v of the glue's two copies (apply_plan), tied to the code by the correspondence (native glue) and by C04 (trampoline glue)",
         "hook verif_log_view (cfg shopify_function_verif) calls the real Logs::read_ptrs, otherwise wasm-only",
     ]
     assumptions = [
@@ -20,6 +21,7 @@ class Property(Base):
 
     def regen(self):
         changed, info = gen_log.generate(vf.REPO, os.path.join(vf.COQ, "theories/Gen/LogGen.v"))
+        info["T8"] = gen_rs2v.generate(vf.REPO, "LogFnGen")
         return info
 
     def property_failure(self, block, I, S, M):
